@@ -20,7 +20,8 @@ for m in idx:
     r = {'applied': p.returncode == 0}
     if p.returncode == 0:
         env = dict(os.environ, CARGO_TARGET_DIR='/tmp/mutant-target', CARGO_NET_OFFLINE='true', RUSTFLAGS='-Awarnings')
-        c = subprocess.run(['cargo', 'check', '--offline', '--lib'], cwd=repo, env=env, stdout=subprocess.PIPE, stderr=subprocess.STDOUT, text=True)
+        feat = ['--features', 'sdp,blas-src,lapack-src'] if 'psd' in name else []
+        c = subprocess.run(['cargo', 'check', '--offline', '--lib'] + feat, cwd=repo, env=env, stdout=subprocess.PIPE, stderr=subprocess.STDOUT, text=True)
         r['compiles'] = c.returncode == 0
         if c.returncode == 0:
             env2 = dict(os.environ, VERIF_REPO=repo, VERIF_TAG='-ben-' + name)
